@@ -268,6 +268,21 @@ fn c02_split_view_nm_n3() {
     kani::cover!(n1 == 3);
 }
 
+
+// @unit class=bounded tier=thorough mem=heavy bound="n=3,ratio 0.5" timeout=600 fns=linfa::dataset::DatasetBase::split_with_ratio
+#[kani::proof]
+#[kani::unwind(5)]
+#[kani::stub(alloc::fmt::format, fmt_stub)]
+fn c02_split_view_x1() {
+    let ratio = 0.5f32;
+    let n1 = c02_ceil_count(3, ratio);
+    let ds = c02_ds1(3, 2, true, true);
+    let v = ds.view();
+    let (d1, d2) = v.split_with_ratio(ratio);
+    c02_post_split1(&d1, &d2, 3, 2, n1, true, true);
+    kani::cover!(n1 == 2);
+}
+
 // ------------------------------------------------------------------ owned and view forms agree
 
 // @unit class=bounded tier=thorough mem=heavy bound="n=2,p=2,single target,weights+names,ratio symbolic f32 in [0,1]" timeout=1200 fns=linfa::dataset::Dataset::split_with_ratio,linfa::dataset::DatasetBase::split_with_ratio
